@@ -45,6 +45,20 @@ pub struct KnownEntry {
     pub text: String,
 }
 
+/// Which of the two build profiles this binary is: `checked` (overflow checks + debug assertions,
+/// the semantics of `cargo test`) or `unchecked` (neither, the semantics of `cargo build --release`).
+pub fn profile() -> &'static str {
+    if cfg!(debug_assertions) {
+        "checked"
+    } else {
+        "unchecked"
+    }
+}
+
+pub fn twin_binary(root: &PathBuf, want_profile: &str) -> PathBuf {
+    root.join("harness/target").join(if want_profile == "unchecked" { "unchecked" } else { "release" }).join("ckc-verif")
+}
+
 pub fn verif_root() -> PathBuf {
     if let Ok(p) = std::env::var("VERIF_ROOT") {
         return PathBuf::from(p);
@@ -155,7 +169,7 @@ impl Run {
         self.nontrivial += nontrivial;
         let complete = domain.map(|d| d == cases);
         self.generators.push(json!({
-            "name": name, "kind": kind, "domain_size": domain, "cases": cases,
+            "name": name, "profile": profile(), "kind": kind, "domain_size": domain, "cases": cases,
             "distinct_nontrivial": nontrivial, "complete": complete, "note": note,
             "t_s": (self.elapsed() * 1000.0).round() / 1000.0,
         }));
@@ -200,7 +214,7 @@ impl Run {
         }
         let rec = json!({
             "property": self.id, "clause": clause, "signature": full_sig, "case": case,
-            "message": message, "tier": self.tier.name(), "seed": self.seed,
+            "message": message, "tier": self.tier.name(), "seed": self.seed, "profile": profile(),
         });
         let text = serde_json::to_string_pretty(&rec).unwrap();
         let h = fnv64(text.as_bytes());
@@ -271,6 +285,54 @@ impl Run {
             self.violations,
             path.display()
         );
+    }
+
+    /// true in the re-execution under the other build profile: heavy generators may use a lighter
+    /// budget there (the full budget already ran in the primary profile)
+    pub fn is_twin(&self) -> bool {
+        self.sub.is_some()
+    }
+
+    /// Re-execute this property in the binary built with the other profile and merge its result.
+    /// Ok(()) if it held there too; Err(Stop) if the twin reported a violation (it printed it).
+    pub fn run_twin(&mut self) -> PResult {
+        let other = if profile() == "checked" { "unchecked" } else { "checked" };
+        let twin = twin_binary(&self.root, other);
+        if !twin.exists() {
+            panic!("twin binary {} missing: run ./check build", twin.display());
+        }
+        let out = std::process::Command::new(&twin)
+            .arg(&self.id)
+            .arg("--tier")
+            .arg(self.tier.name())
+            .arg("--seed")
+            .arg(format!("{}", self.seed as i64))
+            .arg("--sub")
+            .arg(other)
+            .env("VERIF_ROOT", &self.root)
+            .stderr(std::process::Stdio::inherit())
+            .output()
+            .expect("spawn twin");
+        let text = String::from_utf8_lossy(&out.stdout).to_string();
+        let mut merged = false;
+        for line in text.lines() {
+            if let Some(rest) = line.strip_prefix("SUBRESULT ") {
+                let (tag, js) = rest.split_once(' ').unwrap_or(("?", "{}"));
+                let ev: Value = serde_json::from_str(js).expect("sub result json");
+                self.merge_sub(tag, &ev);
+                merged = true;
+            } else {
+                println!("{}", line);
+            }
+        }
+        match out.status.code() {
+            Some(0) if merged => Ok(()),
+            Some(1) => {
+                self.violations += 1;
+                Err(Stop)
+            }
+            c => panic!("twin binary ended with {:?}", c),
+        }
     }
 
     /// Merge a sub-process result (same property, other build profile) into this run.
